@@ -2,7 +2,7 @@
 One unit per layer class: the real (buffer,size) constructor + generic read accessors on the accepted object,
 buffer length enumerated concretely (one CBMC query per length), contents symbolic, the neighbouring layers
 replaced by contract stubs (shim/stubs.h)."""
-import re
+import os, re
 from driver import Unit, Inst
 import tinsinfo
 
@@ -22,7 +22,7 @@ NRAND = {'quick': 40, 'thorough': 400}
 # class -> (fixed header bytes before any variable part, extra quick bytes)
 HEADER = {'EthernetII': 14, 'Dot3': 14, 'LLC': 3, 'SNAP': 8, 'Dot1Q': 4, 'MPLS': 4, 'SLL': 16, 'Loopback': 4, 'ARP': 28, 'UDP': 8, 'ICMP': 8, 'IPSecAH': 12, 'IPSecESP': 8,
           'VXLAN': 8, 'RTP': 12, 'STP': 35, 'BootP': 300, 'TCP': 20, 'IP': 20, 'IPv6': 40, 'ICMPv6': 8, 'PPPoE': 6, 'PKTAP': 108, 'PPI': 8, 'RawPDU': 0, 'DNS': 12,
-          'RC4EAPOL': 48, 'RSNEAPOL': 99, 'DHCP': 304, 'DHCPv6': 4, 'RadioTap': 8,
+          'RC4EAPOL': 48, 'RSNEAPOL': 99, 'DHCP': 240, 'DHCPv6': 4, 'RadioTap': 8,
           'Dot11': 10, 'Dot11Data': 24, 'Dot11QoSData': 26, 'Dot11Beacon': 36, 'Dot11ProbeRequest': 24, 'Dot11ProbeResponse': 36, 'Dot11AssocRequest': 28,
           'Dot11AssocResponse': 30, 'Dot11ReAssocRequest': 34, 'Dot11ReAssocResponse': 30, 'Dot11Authentication': 30, 'Dot11Deauthentication': 26, 'Dot11Disassoc': 26,
           'Dot11RTS': 16, 'Dot11PSPoll': 16, 'Dot11CFEnd': 16, 'Dot11EndCFAck': 16, 'Dot11Ack': 10, 'Dot11BlockAckRequest': 20, 'Dot11BlockAck': 151, 'Dot11Control': 10}
@@ -30,7 +30,7 @@ SKIP = {'Dot11ManagementFrame', 'Dot11ControlTA', 'EAPOL'}   # abstract: covered
 HEAVY = {'BootP', 'DHCP', 'PKTAP', 'Dot11BlockAck', 'RSNEAPOL'}
 # calibrated on this sandbox (16 cores, 90 s / 4 GB per query): the longest buffer every shorter length of which is decided in the quick tier.
 # Byte-walking parsers (option / extension / label / record loops) stop early; the thorough tier goes further (see THOROUGH_MAX).
-QUICK_MAX = {'DHCP': 304, 'ICMPv6': 8, 'DNS': 14, 'Dot11Data': 24, 'Dot11QoSData': 13, 'ICMP': 8, 'IP': 20, 'IPv6': 41, 'LLC': 3, 'MPLS': 4, 'RadioTap': 3, 'TCP': 23}
+QUICK_MAX = {'DHCP': 241, 'ICMPv6': 8, 'DNS': 14, 'Dot11Data': 24, 'Dot11QoSData': 13, 'ICMP': 8, 'IP': 20, 'IPv6': 41, 'LLC': 3, 'MPLS': 4, 'RadioTap': 3, 'TCP': 23}
 THOROUGH_MAX = dict(QUICK_MAX)  # long fixed headers: fewer lengths in the quick tier
 
 # classes whose constructor never builds an inner layer through a stub (RawPDU payload or none): one stub mode is enough
@@ -120,6 +120,7 @@ def plan(tier):
         lens = list(range(0, h + extra + 1))
         if tier == 'quick' and name in HEAVY: lens = [0, 1, h - 1, h, h + 1, h + 4, h + 8]
         elif tier == 'quick' and h > 16: lens = sorted(set([0, 1, h // 2, h - 2, h - 1] + list(range(h, h + extra + 1))))
+        if name == 'DHCP' and os.environ.get('C01_DHCP_LENS'): lens = [int(x) for x in os.environ['C01_DHCP_LENS'].split(',')]
         cap = (QUICK_MAX if tier == 'quick' else THOROUGH_MAX).get(name)
         if cap is not None: lens = [L for L in lens if L <= cap]
         out.append((name, hdr, h, red, lens))
